@@ -122,6 +122,9 @@ def gen_cases(ctx):
         for reach in (0, 1, 2, 3) if ctx.thorough else (ctx.rng.choice(reaches), 1):
             for limit in (limits if ctx.thorough else (None, ctx.rng.choice(limits))):
                 cases.append((0, list(rs), reach, limit))
+    # the request list is a set: every other pair / triple is handed over in descending order (C19_merge_order_irrelevant says
+    # the model's answer cannot depend on it; the implementation and the model both get the list as given)
+    cases = [(k, list(reversed(rs)), reach, limit) if n % 2 else (k, rs, reach, limit) for n, (k, rs, reach, limit) in enumerate(cases)]
     # random: larger lists, realistic Modbus addresses, default limits
     n_rand = 40000 if ctx.thorough else 4000
     bases = [0, 1, 9990, 10001, 19990, 30001, 40001, 49900, 100001, 165000, 300001, 400001, 465000]
@@ -185,7 +188,7 @@ def run(ctx):
     cov['distinct_nontrivial'] = len(seen)
     cov['rule'] = ('merge: all multisets of 1-2 ranges over addresses {0..7, 9997..10003} x counts 1..4 x reach 0..3 x '
                    'limit {None,0,1,2,3} (exhaustive, %d cases); triples over a narrower universe (%s); seeded random lists of '
-                   '1-8 ranges at realistic Modbus bank addresses; shatter grid.  non-trivial = merge case with two sorted '
+                   '1-8 ranges at realistic Modbus bank addresses; every other pair / triple in descending order; shatter grid.  non-trivial = merge case with two sorted '
                    'neighbours in one bank within reach (overlap/adjacent/nested/duplicate/gap<=reach); distinct by sorted input'
                    % (nex, 'exhaustive' if ctx.thorough else 'sampled'))
     cov['exhaustive'] = False
